@@ -217,6 +217,9 @@ for _rc in (0, 1):
                                   encodes=["hypnotoad.cases.tokamak:TokamakEquilibrium.__init__"],
                                   desc="reverse_current / psi_divide_twopi / reverse_Bt act on psi2D, psi1D, the gfile psi scalars and fpol consistently: only signs and the 2*pi factor "
                                        "change (shared with C03)", bounds="psi2D 2x2, profiles of length 3, all values symbolic"))
+            OBLIGATIONS.append(Ob("constructor_option_signs_rc%d_2pi%d_rbt%d_from_arrays" % (_rc, _d, _rb), _c03._mk_signs(bool(_rc), bool(_d), bool(_rb), gfile=False),
+                                  tier="quick", family="field reversal", encodes=["hypnotoad.cases.tokamak:TokamakEquilibrium.__init__"],
+                                  desc="the same for an equilibrium built directly from arrays (no gfile psi scalars)", bounds="psi2D 2x2, profiles of length 3, all values symbolic"))
 
 
 def _spacing_wiring(env):
